@@ -568,3 +568,45 @@ def _insert_bool(os_, v):
 for _n, _f in (('_ZNSo9_M_insertIdEERSoT_', _insert_double), ('_ZNSo9_M_insertIeEERSoT_', _insert_double), ('_ZNSo9_M_insertIlEERSoT_', _insert_int(True)), ('_ZNSo9_M_insertImEERSoT_', _insert_int(False)),
                ('_ZNSo9_M_insertIxEERSoT_', _insert_int(True)), ('_ZNSo9_M_insertIyEERSoT_', _insert_int(False)), ('_ZNSo9_M_insertIPKvEERSoT_', _insert_ptr), ('_ZNSo9_M_insertIbEERSoT_', _insert_bool)):
     rt.OVERRIDE[_n] = _f; EXT[_n] = _f
+
+# ---- std::getline(istream&, string&, char): explicit specialization living in libstdc++.so; modelled over the stream buffer's get area
+def _sb_getc(sb, bump=True):
+    cur = ld(sb + 16, 8); end = ld(sb + 24, 8)
+    if cur < end:
+        c = ld(cur, 1)
+        if bump: st(sb + 16, 8, cur + 1)
+        return c
+    vt = ld(sb, 8)
+    f = rt.FN.get(ld(vt + (10 if bump else 9) * 8, 8))     # uflow / underflow
+    r = f(sb)
+    r &= 0xFFFFFFFF
+    return -1 if r == 0xFFFFFFFF else (r & 0xFF)
+def _str_assign(sp, data):
+    """assign bytes/list-of-byte-values to a std::string object through the real (IR) _M_replace when available"""
+    n = len(data)
+    buf = rt.new_obj(max(n, 1), 'heap', 'getline buffer')
+    for i, c in enumerate(data): st(buf + i, 1, c)
+    f = rt.MODULE[0].NAMES.get('_ZNSt7__cxx1112basic_stringIcSt11char_traitsIcESaIcEE10_M_replaceEmmPKcm')
+    f(sp, 0, ld(sp + 8, 8), buf, n)
+    rt.OBJ.pop(buf >> 32, None)
+@ext('_ZSt7getlineIcSt11char_traitsIcESaIcEERSt13basic_istreamIT_T0_ES7_RNSt7__cxx1112basic_stringIS4_S5_T1_EES4_')
+def _getline(is_, sp, delim):
+    ios = _ios_of(is_)
+    state = ld(ios + 32, 4)
+    delim &= 0xFF
+    if state != 0:                      # sentry fails on a stream that is not good()
+        st(ios + 32, 4, state | 4); return is_
+    sb = ld(ios + 232, 8)
+    out = []; extracted = 0; eof = False
+    while True:
+        c = _sb_getc(sb)
+        if c.__class__ is not S and c == -1: eof = True; break
+        extracted += 1
+        if c == delim: break
+        out.append(c)
+    _str_assign(sp, out)
+    ns = state
+    if eof: ns |= 2
+    if extracted == 0: ns |= 4
+    st(ios + 32, 4, ns)
+    return is_
